@@ -220,24 +220,42 @@ nine methods are *in* these definitions.  The theorems below say that the transl
 exactly what the recursive model computes (so every theorem above is a theorem about the code as
 extracted), and restate the property's main clauses directly on the translated code. -/
 
+set_option linter.unusedSimpArgs false in
 open Gen.Encodings in
-/-- One step of the generated run-detection loop, whatever the order of its assignments. -/
-theorem gen_rle_loop_step (eq : α → α → Bool) (p : α) (n : Nat) (rl : List Nat) (rv : List α) (v : α) :
-    rleInit_loop1 eq (p, n, rl, rv) v =
-      if eq v p then (p, n + 1, rl, rv) else (v, Gen.Encodings.runStart, rl ++ [n], rv ++ [p]) := by
-  cases h : eq v p <;> simp [rleInit_loop1, h, Gen.Encodings.runStart]
+/-- One step of the generated run-detection loop, whatever the order of its assignments: a value for which
+the source's run test holds (`Gen.Encodings.rleExtends`: the test of the loop's `if`, translated from the
+working tree together with the loop) extends the run, any other value closes it. -/
+theorem gen_rle_loop_step (eq sc : α → α → Bool) (p : α) (n : Nat) (rl : List Nat) (rv : List α) (v : α) :
+    rleInit_loop1 eq sc (p, n, rl, rv) v =
+      if rleExtends eq sc v p then (p, n + 1, rl, rv) else (v, Gen.Encodings.runStart, rl ++ [n], rv ++ [p]) := by
+  cases h : eq v p <;> cases h' : sc v p <;> simp [rleInit_loop1, rleExtends, h, h', Gen.Encodings.runStart]
 
+/-- **The run test implies equality**: a value extends a run only if it is `==` the run's value (whatever else
+the test looks at, e.g. the classes of the two values).  This is what the round trip needs. -/
+theorem gen_rle_extends_sound (eq sc : α → α → Bool) (a b : α) (h : Gen.Encodings.rleExtends eq sc a b = true) :
+    eq a b = true := by
+  cases h1 : eq a b <;> cases h2 : sc a b <;> simp_all [Gen.Encodings.rleExtends]
+
+/-- **Every equal neighbour extends the run**: the run test holds for *every* pair of `==` values, of whatever
+classes.  This is what "adjacent runs differ" needs: the run values are stored in one numpy array, i.e. one
+dtype, where `2` and `2.0`, `True` and `1` are the same value; a test that splits a run between two equal
+values of different classes (`value.__class__ is prev_value.__class__ and value == prev_value`) stores that
+value twice in a row. -/
+theorem gen_rle_extends_complete (eq sc : α → α → Bool) (a b : α) (h : eq a b = true) :
+    Gen.Encodings.rleExtends eq sc a b = true := by
+  simp [Gen.Encodings.rleExtends, h]
 
 open Gen.Encodings in
-/-- The generated fold, followed by the two final appends, is the recursive run detection. -/
-theorem gen_rle_loop_fold (eq : α → α → Bool) (vs : List α) (p : α) (n : Nat) (rl : List Nat) (rv : List α) :
-    rleFinish (List.foldl (rleInit_loop1 eq) (p, n, rl, rv) vs) =
-    (rv ++ (rleLoop eq p n vs).map (·.1), rl ++ (rleLoop eq p n vs).map (·.2)) := by
+/-- The generated fold, followed by the two final appends, is the recursive run detection under the source's
+run test. -/
+theorem gen_rle_loop_fold (eq sc : α → α → Bool) (vs : List α) (p : α) (n : Nat) (rl : List Nat) (rv : List α) :
+    rleFinish (List.foldl (rleInit_loop1 eq sc) (p, n, rl, rv) vs) =
+    (rv ++ (rleLoop (rleExtends eq sc) p n vs).map (·.1), rl ++ (rleLoop (rleExtends eq sc) p n vs).map (·.2)) := by
   induction vs generalizing p n rl rv with
   | nil => simp [rleLoop, rleFinish]
   | cons v vs ih =>
     rw [List.foldl_cons, gen_rle_loop_step]
-    cases h : eq v p
+    cases h : rleExtends eq sc v p
     · simp only [Bool.false_eq_true, if_false]
       rw [ih]
       simp [rleLoop, h, Gen.Encodings.runStart]
@@ -257,12 +275,15 @@ theorem gen_rle_materialize_fold (acc : List α) (ps : List (α × Nat)) :
     simp [rleMaterialize_loop1]
 
 
-theorem gen_rle_init_refines (eq : α → α → Bool) (xs : List α) :
-    Gen.Encodings.rleInit eq xs = some ((rleEncode eq xs).values, (rleEncode eq xs).lengths) := by
+/-- The translated `RLEColumn.__init__` is the model's encoder under the source's run test (incl. the
+empty-input early return; it never raises). -/
+theorem gen_rle_init_refines (eq sc : α → α → Bool) (xs : List α) :
+    Gen.Encodings.rleInit eq sc xs =
+      some ((rleEncode (Gen.Encodings.rleExtends eq sc) xs).values, (rleEncode (Gen.Encodings.rleExtends eq sc) xs).lengths) := by
   cases xs with
   | nil => simp [Gen.Encodings.rleInit, rleEncode]
   | cons x t =>
-    have h := gen_rle_loop_fold eq t x Gen.Encodings.runStart [] []
+    have h := gen_rle_loop_fold eq sc t x Gen.Encodings.runStart [] []
     simp only [rleFinish, List.nil_append] at h
     simp [Gen.Encodings.rleInit, rleEncode, Gen.Encodings.runStart] at h ⊢
     exact h
@@ -272,7 +293,7 @@ theorem gen_rle_materialize_refines (vs : List α) (ls : List Nat) :
   simp [Gen.Encodings.rleMaterialize, gen_rle_materialize_fold, rleDecode]
 
 /-- the translated code runs: `RLEColumn([3,3,5,3])` stores `[3,5,3]` / `[2,1,1]` and expands back -/
-example : Gen.Encodings.rleInit (fun a b : Nat => a == b) [3, 3, 5, 3] = some ([3, 5, 3], [2, 1, 1]) ∧
+example : Gen.Encodings.rleInit (fun a b : Nat => a == b) (fun _ _ => true) [3, 3, 5, 3] = some ([3, 5, 3], [2, 1, 1]) ∧
     Gen.Encodings.rleMaterialize [3, 5, 3] [2, 1, 1] = some [3, 3, 5, 3] := by decide
 
 theorem gen_function_materialize_refines {γ : Type} (binding : γ → α) (cfg : γ) (n : Nat) :
@@ -336,10 +357,46 @@ theorem model_sparse_materialize_is_generated (i2f : Int → UInt64) (d : PyVal)
       | some vs => simp only [Option.bind_some]; cases sparseDecode d' _ <;> rfl
 
 /-- **RLE, on the translated code**: `RLEColumn(values=xs).materialize()` is `xs`. -/
-theorem source_rle_roundtrip (eq : α → α → Bool) (heq : ∀ a b, eq a b = true → a = b) (xs : List α) :
-    ((Gen.Encodings.rleInit eq xs).bind fun e => Gen.Encodings.rleMaterialize e.1 e.2) = some xs := by
+theorem source_rle_roundtrip (eq sc : α → α → Bool) (heq : ∀ a b, eq a b = true → a = b) (xs : List α) :
+    ((Gen.Encodings.rleInit eq sc xs).bind fun e => Gen.Encodings.rleMaterialize e.1 e.2) = some xs := by
   rw [gen_rle_init_refines, Option.bind_some, gen_rle_materialize_refines]
-  exact congrArg some (rle_roundtrip eq heq xs)
+  exact congrArg some (rle_roundtrip _ (fun a b h => heq a b (gen_rle_extends_sound eq sc a b h)) xs)
+
+/-- **Adjacent runs differ, on the values as stored, on the translated code.**  The run values are collected
+into one numpy array: `store` is what that does to a value (bring it to the common dtype), `eqS` equality of
+stored values.  Whenever storing does not identify values that `==` tells apart (`hstore`; for numpy's
+promotion: up to 2^53, `cast_into_reflects_pyEq`), two neighbouring stored run values are different -- for
+every input, of whatever mixture of classes (`sc` is arbitrary).  The proof needs the run test to hold for
+*every* pair of equal values (`gen_rle_extends_complete`). -/
+theorem source_rle_adjacent_stored_differ {β : Type} (eq sc : α → α → Bool) (store : α → β) (eqS : β → β → Bool)
+    (hstore : ∀ a b, eqS (store a) (store b) = true → eq a b = true)
+    (xs vs : List α) (ls : List Nat) (h : Gen.Encodings.rleInit eq sc xs = some (vs, ls))
+    (i : Nat) (hi : i + 1 < vs.length) :
+    eqS (store vs[i + 1]) (store vs[i]) = false := by
+  rw [gen_rle_init_refines] at h
+  obtain ⟨rfl, -⟩ := Prod.mk.inj (Option.some.inj h)
+  have hd := rle_adjacent_differ (Gen.Encodings.rleExtends eq sc) xs i hi
+  cases hs : eqS (store (rleEncode (Gen.Encodings.rleExtends eq sc) xs).values[i + 1])
+      (store (rleEncode (Gen.Encodings.rleExtends eq sc) xs).values[i]) with
+  | false => rfl
+  | true => rw [gen_rle_extends_complete eq sc _ _ (hstore _ _ hs)] at hd; exact absurd hd (by simp)
+
+/-- **Run lengths on the translated code**: one positive length per stored value, summing to the input length. -/
+theorem source_rle_lengths (eq sc : α → α → Bool) (xs vs : List α) (ls : List Nat)
+    (h : Gen.Encodings.rleInit eq sc xs = some (vs, ls)) :
+    ls.sum = xs.length ∧ ls.length = vs.length ∧ ∀ n ∈ ls, 0 < n := by
+  rw [gen_rle_init_refines] at h
+  obtain ⟨rfl, rfl⟩ := Prod.mk.inj (Option.some.inj h)
+  exact ⟨(rle_lengths_sum _ xs).1, (rle_lengths_sum _ xs).2, rle_lengths_pos _ xs⟩
+
+/-- **A class-aware run test stores a value twice in a row** (the counterexample for the class of change):
+under `sameClass a b && eq a b` -- complete for no mixture -- the list `[2.0, 2]` (`eq`: numeric equality;
+elements tagged with their class) gives two runs whose values are equal. -/
+theorem rle_class_split_stores_equal_neighbours :
+    let eq : (Nat × Bool) → (Nat × Bool) → Bool := fun a b => a.1 == b.1   -- the value; the flag is the class
+    let ext : (Nat × Bool) → (Nat × Bool) → Bool := fun a b => a.2 == b.2 && eq a b
+    (rleEncode ext [(2, true), (2, false)]).values = [(2, true), (2, false)] ∧
+    eq (2, false) (2, true) = true ∧ (rleEncode ext [(2, true), (2, false)]).lengths = [1, 1] := by decide
 
 /-- **Dictionary, on the translated code.** -/
 theorem source_dict_roundtrip [DecidableEq α] (le : α → α → Bool) (xs : List α) :
@@ -624,11 +681,15 @@ theorem cast_into_wider (i2f : Int → UInt64) (t rt : DType) (v : PyVal)
     simp [DType.le, DType.rank] at hle <;>
     simp [castInto, Widened] <;> omega
 
-/-- **Casting into the join is injective** on the values of one dtype (given that the
-integer-to-double conversion is, which holds up to 2^53): two different stored values can
-never come out of the expansion as the same value. -/
-theorem cast_into_wider_injective (i2f : Int → UInt64) (hi : ∀ a b, i2f a = i2f b → a = b)
+/-- **Casting into the join is injective** on the values of one dtype, given that the integer-to-double
+conversion is injective *on the integers that occur* (`S`; for the real conversion: any set within
+±2^53 -- beyond, numpy's promotion rounds, C09-K01): two different stored values can never come out of the
+expansion as the same value.  (Restated in the fourth pass: the hypothesis used to ask injectivity on *all*
+integers, which no function into 64 bits satisfies.) -/
+theorem cast_into_wider_injective (i2f : Int → UInt64) (S : Int → Prop)
+    (hi : ∀ a b, S a → S b → i2f a = i2f b → a = b)
     (t rt : DType) (v v' : PyVal) (hv : holds t v = true) (hv' : holds t v' = true)
+    (hS : ∀ i, intOf v = some i → S i) (hS' : ∀ i, intOf v' = some i → S i)
     (hle : DType.le t rt = true) (h : castInto i2f rt v = castInto i2f rt v') : v = v' := by
   have hb : ∀ b b' : Bool, (if b then (1 : Int) else 0) = (if b' then 1 else 0) → b = b' := by
     intro b b'; cases b <;> cases b' <;> simp
@@ -637,10 +698,41 @@ theorem cast_into_wider_injective (i2f : Int → UInt64) (hi : ∀ a b, i2f a = 
     simp [castInto] at h ⊢ <;>
     first
       | exact hb _ _ h
-      | exact hi _ _ h
-      | exact hb _ _ (hi _ _ h)
+      | exact hi _ _ (hS _ rfl) (hS' _ rfl) h
+      | exact hb _ _ (hi _ _ (hS _ rfl) (hS' _ rfl) h)
       | omega
       | (split at h <;> split at h <;> simp_all <;> omega)
+      | simp_all
+
+/-- the hypotheses of `cast_into_wider_injective` are satisfiable with a non-trivial set of integers -/
+example : ∃ (i2f : Int → UInt64) (S : Int → Prop), S 0 ∧ S 1 ∧ S 7 ∧ ∀ a b, S a → S b → i2f a = i2f b → a = b :=
+  ⟨fun i => if i = 0 then 0 else if i = 1 then 1 else 7, fun i => i = 0 ∨ i = 1 ∨ i = 7, by simp, by simp, by simp, by
+    intro a b ha hb
+    rcases ha with rfl | rfl | rfl <;> rcases hb with rfl | rfl | rfl <;> decide⟩
+
+/-- **Bringing values to one dtype does not make different values equal** (the `hstore` of
+`source_rle_adjacent_stored_differ` for numpy's unification `Enc.castInto`, whatever the classes of the two
+values): if two values stored into one array of dtype `rt` compare equal there, they compare equal as Python
+values (`pyEq`: numbers after promotion).  `S`: a set of integers on which the integer-to-double conversion
+tells integers apart (within ±2^53 for the real one; beyond, `[2**53 + 1, 2.0**53]` is stored as two equal
+doubles -- the class of C09-K01). -/
+theorem cast_into_reflects_pyEq (i2f : Int → UInt64) (S : Int → Prop)
+    (hi : ∀ a b, S a → S b → floatEq (i2f a) (i2f b) = true → a = b)
+    (rt : DType) (a b a' b' : PyVal) (hS : ∀ i, intOf a = some i → S i) (hS' : ∀ i, intOf b = some i → S i)
+    (ha : castInto i2f rt a = some a') (hb : castInto i2f rt b = some b') (h : pyEq i2f a' b' = true) :
+    pyEq i2f a b = true := by
+  have hbb : ∀ x y : Bool, (if x then (1 : Int) else 0) = (if y then 1 else 0) → x = y := by
+    intro x y; cases x <;> cases y <;> simp
+  cases rt <;> cases a <;> simp [castInto] at ha <;> cases b <;> simp [castInto] at hb <;>
+    subst_vars <;> simp [pyEq] at h ⊢ <;>
+    first
+      | exact h
+      | exact hbb _ _ h
+      | (obtain ⟨-, rfl⟩ := ha; obtain ⟨-, rfl⟩ := hb; simpa [pyEq] using h)
+      | exact hi _ _ (hS _ rfl) (hS' _ rfl) h
+      | exact hbb _ _ (hi _ _ (hS _ rfl) (hS' _ rfl) h)
+      | (have := hi _ _ (hS _ rfl) (hS' _ rfl) h; simp_all)
+      | (have := hi _ _ (hS _ rfl) (hS' _ rfl) h; omega)
       | simp_all
 
 /-- **The repaired sparse expansion is lossless in the dtype lattice.**  For every input whose
